@@ -15,10 +15,10 @@ use crate::util::{catch, H128};
 use crate::{vbail, vcheck_eq};
 use std::collections::{BTreeMap, BTreeSet, HashSet};
 
-pub fn build_family<W: World>(cfg: &Cfg, alpha_name: &str, n: usize, cap: usize, out: &mut Outcome) -> Vec<Vec<Op>> {
+pub fn build_family<W: World>(cfg: &Cfg, alpha_name: &str, n: usize, cap: usize, out: &mut Outcome, cur: Option<&str>) -> Vec<Vec<Op>> {
     let a = alpha::by_name(alpha_name);
     let lim = Limits { max_states: 5_000_000, max_secs: 120.0, max_viol: 4 };
-    let o = engine::run_e1::<W>(cfg, &E1Params { n, d: 1, concrete_layers: 0, collect_family: true }, &*a, &lim, None, None);
+    let o = engine::run_e1::<W>(cfg, &E1Params { n, d: 1, concrete_layers: 0, collect_family: true }, &*a, &lim, cur, None);
     out.violations.extend(o.violations);
     out.viol_count += o.viol_count;
     let fam = o.family;
@@ -71,12 +71,12 @@ type PairFn<W> = dyn Fn(&mut W, &mut W, &ShardSpec, usize) -> VResult<u64>;
 fn run_pairs<W: World>(spec: &ShardSpec, cur: Option<&str>, fam_alpha: &str, renames: &[(u32, u32, &str)], seeds: &[(u64, u64)], variants: usize, oracle: &PairFn<W>) -> Outcome {
     let t0 = std::time::Instant::now();
     let mut out = Outcome::default();
-    let mut curf = CurFile::new(cur);
     let cfg = spec.cfg();
     let cap: usize = spec.extra.get("fam").and_then(|s| s.parse().ok()).unwrap_or(200);
     let part: usize = spec.extra.get("part").and_then(|s| s.parse().ok()).unwrap_or(0);
     let parts: usize = spec.extra.get("parts").and_then(|s| s.parse().ok()).unwrap_or(1);
-    let fam = build_family::<W>(&cfg, fam_alpha, spec.n, cap, &mut out);
+    let fam = build_family::<W>(&cfg, fam_alpha, spec.n, cap, &mut out, cur);
+    let mut curf = CurFile::new(cur);
     out.layers.push((fam.len() as u64, 0));
     let mut seen: HashSet<u128> = HashSet::new();
     let mut obs_seen: HashSet<u64> = HashSet::new();
@@ -478,10 +478,10 @@ type SingleFn<W> = dyn Fn(&mut W, usize) -> VResult<u64>;
 fn run_singles<W: World>(spec: &ShardSpec, cur: Option<&str>, fam_alpha: &str, variants: usize, oracle: &SingleFn<W>) -> Outcome {
     let t0 = std::time::Instant::now();
     let mut out = Outcome::default();
-    let mut curf = CurFile::new(cur);
     let cfg = spec.cfg();
     let cap: usize = spec.extra.get("fam").and_then(|s| s.parse().ok()).unwrap_or(2000);
-    let fam = build_family::<W>(&cfg, fam_alpha, spec.n, cap, &mut out);
+    let fam = build_family::<W>(&cfg, fam_alpha, spec.n, cap, &mut out, cur);
+    let mut curf = CurFile::new(cur);
     out.layers.push((fam.len() as u64, 0));
     let mut seen: HashSet<u128> = HashSet::new();
     let mut obs_seen: HashSet<u64> = HashSet::new();
